@@ -30,10 +30,11 @@ type PCParams struct {
 	Prefill   int      `json:"prefill"` // events written, flushed (and half of them ACKed) before the threads start
 	Budgets   []int    `json:"budgets"` // events the consumer reads per reader transaction (cycled); default 1
 	Gate      int      `json:"gate"`    // >0: the producer writes event #Gate only after the consumer has read Gate events
+	Retry     bool     `json:"retry"`   // bounded file: the producer retries (after yielding) when the queue reports 'full'
 }
 
 func (p PCParams) String() string {
-	return fmt.Sprintf("%s/sizes%v/flushEach=%v/ackEach=%v/prefill=%d/budgets=%v/gate=%d", p.Cfg, p.Sizes, p.FlushEach, p.AckEach, p.Prefill, p.Budgets, p.Gate)
+	return fmt.Sprintf("%s/sizes%v/flushEach=%v/ackEach=%v/prefill=%d/budgets=%v/gate=%d/retry=%v", p.Cfg, p.Sizes, p.FlushEach, p.AckEach, p.Prefill, p.Budgets, p.Gate, p.Retry)
 }
 
 type pcShared struct {
@@ -123,11 +124,33 @@ func mkProdConsScenario(raw json.RawMessage) (explore.Body, error) {
 					}
 				}
 				data := queuedrv.EventBytes(base+i, sz)
-				if n, err := w.Write(data); err != nil || n != len(data) {
-					sh.add("prodcons/write-error", "Write of event %d failed: n=%d err=%v", i, n, err)
+				// with Retry, 'full' is back-pressure: wait for the consumer and try again
+				retry := func(what string, call func() error) bool {
+					for {
+						err := call()
+						if err == nil {
+							return true
+						}
+						if p.Retry && (queuedrv.IsFull(err) || env.Tight()) && !sh.failed() {
+							sh.ev('x')
+							sched.YieldSpin("producer waits for space")
+							continue
+						}
+						sh.add("prodcons/write-error", "%s of event %d failed: %v", what, i, err)
+						return false
+					}
+				}
+				if !retry("Write", func() error {
+					n, err := w.Write(data)
+					if err == nil && n != len(data) {
+						return fmt.Errorf("short write %d", n)
+					}
+					return err
+				}) {
 					break
 				}
-				if err := w.Next(); err != nil {
+				// Next completes the event even if its flush fails
+				if err := w.Next(); err != nil && !(p.Retry && (queuedrv.IsFull(err) || env.Tight())) {
 					sh.add("prodcons/write-error", "Next after event %d failed: %v", i, err)
 					break
 				}
@@ -135,16 +158,24 @@ func mkProdConsScenario(raw json.RawMessage) (explore.Body, error) {
 				sh.ev('w')
 				sched.Step("producer between two writer calls")
 				if p.FlushEach {
-					if err := w.Flush(); err != nil {
-						sh.add("prodcons/write-error", "Flush after event %d failed: %v", i, err)
+					if !retry("Flush", w.Flush) {
 						break
 					}
 					sh.setFlushed(i + 1)
 					sh.ev('f')
 				}
 			}
-			if err := w.Flush(); err != nil {
+			for {
+				err := w.Flush()
+				if err == nil {
+					break
+				}
+				if p.Retry && (queuedrv.IsFull(err) || env.Tight()) && !sh.failed() {
+					sched.YieldSpin("producer waits for space")
+					continue
+				}
 				sh.add("prodcons/write-error", "final Flush failed: %v", err)
+				break
 			}
 			sh.setFlushed(total)
 			sh.ev('F')
@@ -261,7 +292,11 @@ func pcScenarios(quick bool) (ps []interface{}, names []string) {
 	add(PCParams{Cfg: c, Sizes: []int{500, 500}, FlushEach: true, AckEach: false, Prefill: 2})
 	// the consumer keeps unread events known from an earlier transaction, the producer appends to the tail page meanwhile
 	add(PCParams{Cfg: c, Sizes: []int{300, 300, 300}, FlushEach: true, AckEach: false, Budgets: []int{1, 2}, Gate: 2})
+	// back-pressure: the producer outruns the consumer on a small bounded file and retries when the queue is full
 	if !quick {
+		// (thorough only: ~750 choice points per execution; the same lock leak is caught in the quick tier by C12's
+		// single-threaded fill histories, where the scheduler reports the deadlock)
+		add(PCParams{Cfg: QCfgSpec{File: "A", Buffer: 5}, Sizes: []int{12000, 12000, 12000, 12000, 12000}, FlushEach: true, AckEach: true, Retry: true})
 		add(PCParams{Cfg: c, Sizes: []int{500, 500, 500}, FlushEach: true, AckEach: true})
 		add(PCParams{Cfg: c, Sizes: []int{10, 1500, 10}, FlushEach: false, AckEach: true})
 		add(PCParams{Cfg: c, Sizes: []int{992, 993}, FlushEach: true, AckEach: true, Prefill: 3})
@@ -278,10 +313,21 @@ func runC13(ctx *core.Ctx, pool *par.Pool) {
 		ctx.SetBudget(15 * time.Minute)
 	}
 	ps, names := pcScenarios(ctx.Quick())
-	bounds := func(int) explore.Bounds { return explore.Bounds{Preempt: bound} }
+	bounds := func(i int) explore.Bounds {
+		if ps[i].(PCParams).Retry { // long executions: one bound lower
+			return explore.Bounds{Preempt: bound - 1}
+		}
+		return explore.Bounds{Preempt: bound}
+	}
 	execs, points, outcomes := exploreAll(ctx, pool, "prodcons", ps, names, bounds, "explore")
 	if rp := racePool(ctx); rp != nil {
-		rb := func(int) explore.Bounds { return explore.Bounds{Preempt: bound - 1} }
+		rb := func(i int) explore.Bounds {
+			b := bounds(i)
+			if b.Preempt > 0 {
+				b.Preempt--
+			}
+			return b
+		}
 		re, _, _ := exploreAll(ctx, rp, "prodcons", ps, names, rb, "explore")
 		ctx.Set("race_detector_schedules", re)
 	} else {
